@@ -37,3 +37,11 @@ Theorem C09_applied_within_one_story : forall s uc st tg nw cm o,
   let '(d1, work, _) := resolve (e_doc (s_eng s)) sp st (st + length tg) in one_story d1 work = true.
 Proof. exact apply_indexed_one_story. Qed.
 Print Assumptions C09_applied_within_one_story.
+
+(* no nested revision marks from insertions (fix D59): the element new text is placed next to is always a DIRECT child of a paragraph -
+   the anchor run itself, or the tracked-change wrapper whose outermost run on that side the anchor is; when neither is available the
+   model refuses (verdict Outside 3, finding D34) *)
+Theorem C09_insertion_placed_at_paragraph_level : forall au before d pu, place_uid au before d = Some pu ->
+  exists p n, In p (doc_paras d) /\ In n (p_nodes p) /\ has_uid pu n = true.
+Proof. exact place_uid_direct. Qed.
+Print Assumptions C09_insertion_placed_at_paragraph_level.
